@@ -235,6 +235,14 @@ func chainStreams(c *mon.Ctx, h *hostile.Harness) {
 		case 2:
 			kind = "empty"
 			o = node.BlockOpts{}
+		case 3: // well-formed (valid NFC UTF-8) names outside ASCII: a peer may send them
+			kind = "non-ascii-names"
+			o.Txs = nil
+			for i := 0; i < 1+r.Intn(3); i++ {
+				tx := w.n.NewTx(w.n.Universe[r.Intn(nValidators)], uint64(i), 1000, node.TxVerifyOK, node.TxExecOK, 0)
+				nonASCIIName(r, tx)
+				o.Txs = append(o.Txs, tx)
+			}
 		}
 		b, err := w.nextBlock(r, o)
 		if err != nil {
@@ -300,6 +308,10 @@ func chainStreams(c *mon.Ctx, h *hostile.Harness) {
 				tx.Signatures = append(tx.Signatures, bytes.Repeat([]byte{byte(i)}, 64))
 			}
 			tx.Init()
+		}
+		if r.Intn(4) == 0 { // well-formed names outside ASCII
+			nonASCIIName(r, tx)
+			k.Count("transactions_with_non_ascii_names", 1)
 		}
 		base := tx.Encode()
 		accepted := 0
@@ -715,6 +727,30 @@ func chainStreams(c *mon.Ctx, h *hostile.Harness) {
 			r.Read(junk)
 			drive(k, h, r, junk, []target{direct("sync.HandleRPCEndpointGetLastBlock", handlers[lsync.RPCEndpointGetLastBlock]), direct("txpool.HandleRPCEndpointGetTransaction", handlers[txpool.RPCEndpointGetTransactions])}, driveOpts{sampleAbove: 64, random: 10})
 		}
+		// id lists consisting of blocks the node has (duplicates included), of every size class a
+		// fan-out or a worker pool may treat differently: the handler must answer each of them
+		for _, m := range []int{1, 8, 9, 16, 17, 33, 64, 65, 103, 104, 257} {
+			known := make([][]byte, 0, m)
+			for i := 0; i < m; i++ {
+				if r.Intn(4) == 0 && len(known) > 0 {
+					known = append(known, known[r.Intn(len(known))])
+				} else {
+					known = append(known, w.chain[r.Intn(len(w.chain))].Header.ID)
+				}
+			}
+			body := lsync.VerifEncodeGetHighestCommonBlockRequest(known)
+			hd := handlers[lsync.RPCEndpointGetHighestCommonBlock]
+			cw := &capWriter{}
+			res := h.Call(k, "sync.HandleRPCEndpointGetHighestCommonBlock", fmt.Sprintf("known-ids-%d", m), body, func() {
+				hd(cw, &p2p.Request{ID: "x", Procedure: "p", Data: body, PeerID: hostilePeer})
+			})
+			if !res.Skipped && !res.Panicked {
+				k.Count("common_block_requests_with_known_ids_only", 1)
+				if !cw.written {
+					k.Count("common_block_request_with_known_ids_not_answered(observed, C19)", 1)
+				}
+			}
+		}
 		// nil body (handlers distinguish nil from empty)
 		for name, hd := range map[string]p2p.RPCHandler{"sync.HandleRPCEndpointGetHighestCommonBlock": handlers[lsync.RPCEndpointGetHighestCommonBlock], "sync.HandleRPCEndpointGetBlocksFromID": handlers[lsync.RPCEndpointGetBlocksFromID]} {
 			hd := hd
@@ -815,4 +851,16 @@ func popcount(x int) int {
 		n++
 	}
 	return n
+}
+
+// nonASCIIName gives the transaction a module or command name that is valid NFC UTF-8 but not ASCII.
+func nonASCIIName(r *rand.Rand, tx *blockchain.Transaction) {
+	names := []string{"tok\u00e9n", "\u043c\u043e\u0434\u0443\u043b\u044c", "\u6a21\u5757", "mod\U0001f642", "tx\u0663", "\uff54oken", "\u00ff", "a\u0080b"}
+	n := names[r.Intn(len(names))]
+	if r.Intn(2) == 0 {
+		tx.Module = n
+	} else {
+		tx.Command = n
+	}
+	tx.Init()
 }
